@@ -1,6 +1,6 @@
 (** C11 — route flooding terminates and never loops. *)
 From Coq Require Import List NArith.
-From MM Require Import Model.Flood Model.FloodPreFix Proofs.FloodPreFixProofs Proofs.FloodBase Proofs.FloodOnce Proofs.FloodPaths Generated.C11.
+From MM Require Import Model.Flood Model.FloodPreFix Proofs.FloodPreFixProofs Proofs.FloodBase Proofs.FloodOnce Proofs.FloodPaths Proofs.FloodBound Generated.C11.
 Import ListNotations.
 Local Open Scope N_scope.
 
@@ -24,6 +24,36 @@ Theorem C11_no_expiry_without_expiry_steps : forall cf ops s n o sq,
   forallb (fun op => negb (expiry_op op)) ops = true -> no_expiry cf s ops n o sq.
 Proof. exact no_expiry_syntactic. Qed.
 Print Assumptions C11_no_expiry_without_expiry_steps.
+
+(** The total number of messages is bounded by the number of links.  From ANY
+    reachable state: when origin o announces, the frames the announcement
+    sends plus every copy of it forwarded afterwards, along any schedule on a
+    stable topology in which its seen-cache entries are not expired (any
+    delivery order, duplicates, other traffic), number at most twice the
+    number of links. *)
+Theorem C11_message_bound : forall cf K ops0 o ns0 ops,
+  let s0 := run cf (init K) ops0 in
+  get (st_nodes s0) o = Some ns0 ->
+  let sq := ns_seq ns0 + 1 in
+  let s1 := next cf s0 (Announce o) in
+  stable_run cf o sq s1 ops ->
+  (length (sent cf s0 (Announce o)) + fwd_total cf o sq s1 ops <= 2 * length (st_links s0))%nat.
+Proof. exact announcement_message_bound. Qed.
+Print Assumptions C11_message_bound.
+
+Theorem C11_stable_run_without_expiry_steps : forall cf o sq ops s,
+  Forall stable_op ops -> forallb (fun op => negb (expiry_op op)) ops = true -> stable_run cf o sq s ops.
+Proof. exact stable_run_syntactic. Qed.
+Print Assumptions C11_stable_run_without_expiry_steps.
+
+(** Non-vacuity: triangle (3 links): the origin sends 2 frames, each of the two
+    others forwards once: 4 frames, bound 6. *)
+Example C11_example_bound :
+  let s0 := run [] (init 3) [C 0 1; C 1 2; C 0 2] in
+  let s1 := next [] s0 (Announce 0) in
+  (length (sent [] s0 (Announce 0)) + fwd_total [] 0 1 s1 [D 0; D 0; D 0; D 0])%nat = 4%nat /\
+  (2 * length (st_links s0))%nat = 6%nat.
+Proof. vm_compute. split; reflexivity. Qed.
 
 (** With expiry at an arbitrary point the at-most-once clause is FALSE for the
     code as it is (a TTL cache): a delayed duplicate delivered after the entry
